@@ -267,6 +267,67 @@ def install_runs(si, profile, part):
             part["inconclusive"].append("%s: %s" % (kind_, detail))
 
 
+def selfctx_runs(si, profile, part):
+    """contexts of which the host keeps the ONLY strong handle (the functions hold a Weak of the public field, upgrade and really
+    lock it), and context functions that rewrite the very variable the outer program is assigning: the assignment made after
+    the handler returned decides the final value. Expected values are computed here from the program's construction."""
+    wd = common.workdir(PROP)
+    steps, plan = [], []
+    n = lambda x: ["n", str(x), 0]
+    ACTS = {"keep": {"act": "copy", "a": "spare", "b": "c", "ret": "arg0"},        # overwrites c with spare, returns its argument
+            "forget": {"act": "remove", "a": "c", "ret": "const", "retval": n(0)},  # unbinds c, returns 0
+            "one": {"act": "remove", "a": "c", "ret": "const", "retval": n(1)},
+            "put": {"act": "set", "a": "c", "val": n(7), "ret": "const", "retval": n(7)},
+            "same": {"act": "set", "a": "c", "val": n(41), "ret": "const", "retval": n(5)},  # sets c to 41, returns c's old value
+            "peek": {"act": "lock", "ret": "arg0"}}
+    PROGS = [("c = keep(c); c", 5), ("c = keep(5); c", 5), ("c += forget; c", 5), ("c += forget(); c", 5), ("c -= forget; c", 5), ("c *= one; c", 5),
+             ("c /= one(); c", 5), ("c = put(1); c", 7), ("c = same; c", 5), ("c = same(); c", 5), ("c = peek(c) ; c", 5), ("c = peek(6); c", 6),
+             ("d = keep(c); [c, d]", None), ("c = [keep(c)]; c", None), ("c = (c == 5 ? keep(c) : 0); c", 5), ("c = (keep(c)); spare = 1; c", 5),
+             ("c = 5; c = keep(c); c", 5), ("c = 5.0; c = peek(5.00); c", 5), ("peek(1) + peek(2)", 3), ("peek", None)]
+    for via in ("parse", "execute"):
+        for mac in (False, True):
+            for text, want in PROGS:
+                steps.append({"op": "selfctx", "macro": mac, "via": via, "vars": {"c": n(5), "spare": n(99)}, "wfns": ACTS, "text": text})
+                plan.append((text, want, via))
+    recs, events, _ = common.run_batch(steps, wd, "selfctx-%d-%s" % (si, profile), profile, timeout=300, max_restarts=100)
+    for k, (pl, r) in enumerate(zip(plan, recs)):
+        if r is None:
+            continue
+        text, want, via = pl
+        part["evaluations"] += 1
+        part["counts"]["selfctx_scenarios"] = part["counts"].get("selfctx_scenarios", 0) + 1
+        res = r.get("res")
+        if want is None:
+            if text.startswith("d ="):
+                good = res == {"ok": ["l", [n(99), n(5)]]}
+                wtxt = "[99, 5]"
+            elif text.startswith("c = ["):
+                good = res == {"ok": ["l", [n(5)]]}
+                wtxt = "[5]"
+            else:
+                good = isinstance(res, dict) and "ok" in res
+                wtxt = "any value"
+        else:
+            good = isinstance(res, dict) and "ok" in res and res["ok"][0] == "n" and int(res["ok"][1]) == want * 10 ** res["ok"][2]
+            wtxt = str(want)
+        if good and via == "parse" and want is not None and text.endswith("; c") and "spare = 1" not in text:
+            snap = r.get("snap", {})
+            cv = snap.get("c")
+            if not (isinstance(cv, list) and cv[0] == "n" and int(cv[1]) == want * 10 ** cv[2]):
+                good = False
+                res = {"context_after": snap}
+        if good:
+            part["classes"].add("selfctx:%s:%s" % (via, text.split(";")[0][:14]))
+        else:
+            part["violations"].append({"sig": ["selfctx-wrong-result", text], "what": "context whose only strong handle is the host's (c = 5, spare = 99; `keep` copies spare over c through the handle and returns its argument, `forget`/`one` unbind c and return 0/1, `put` sets c = 7 and returns 7, `same` sets c = 41 and returns 5, `peek` only locks): `%s` (%s) gave %s, normal result %s" % (text, via, json.dumps(res), wtxt), "replay": None})
+    for kind_, detail, k_ in events:
+        if kind_ in ("deadlock", "hang", "signal"):
+            pl = plan[k_] if isinstance(k_, int) and 0 <= k_ < len(plan) else None
+            part["violations"].append({"sig": [kind_, "selfctx"], "what": "a context function that upgrades its Weak handle of the evaluating context and locks it%s: %s" % ((" in `%s` (%s)" % (pl[0], pl[2])) if pl else "", detail), "replay": None})
+        else:
+            part["inconclusive"].append("%s: %s" % (kind_, detail))
+
+
 def chain_runs(si, profile, part):
     """statement chains whose earlier statement's handler acts on what a LATER statement of the same program uses: it registers an
     operator spelled like a variable / an operator sequence used later (the whole text was parsed before anything ran, so the later
@@ -342,6 +403,10 @@ def run_shard(desc):
         install_runs(si, profile, part)
         part["classes"] = sorted(part["classes"])
         return part
+    if scns == "selfctx":
+        selfctx_runs(si, profile, part)
+        part["classes"] = sorted(part["classes"])
+        return part
     if scns == "chain":
         chain_runs(si, profile, part)
         part["classes"] = sorted(part["classes"])
@@ -395,7 +460,7 @@ def run(rep, tier):
         shards.append((100 + i, scns[i::nsh], "release"))
     for i in range(8 if tier == "quick" else 64):
         shards.append((900 + i, "shared", "release" if i % 2 else "verifdbg"))
-    shards += [(950, "install", "verifdbg"), (951, "install", "release"), (960, "chain", "verifdbg"), (961, "chain", "release")]
+    shards += [(950, "install", "verifdbg"), (951, "install", "release"), (960, "chain", "verifdbg"), (961, "chain", "release"), (970, "selfctx", "verifdbg"), (971, "selfctx", "release")]
     for part in common.pmap(run_shard, shards):
         rep.merge(part)
     rep.extra["exhaustive"] = True
